@@ -180,6 +180,221 @@ def graph_features(fl):
                 multi_action=sum(1 for n in fl["nodes"] if len(n.get("actions", [])) > 1))
 
 
+# ------------------------------------------------------------------ correspondence
+from common import enc_str, enc_list, parse_sexp, dec_str  # noqa: E402
+
+
+class Unencodable(Exception):
+    pass
+
+
+def _s(x):
+    if not isinstance(x, str):
+        raise Unencodable(f"not a string: {x!r}")
+    return enc_str(x)
+
+
+def _opt(x):
+    return "()" if x is None else "(" + x + ")"
+
+
+class Enc:
+    """loaded FlowContainer -> S-expression for the model; uuids become naturals"""
+
+    def __init__(self):
+        self.ids = {}
+
+    def u(self, x):
+        if not isinstance(x, str) or not x:
+            raise Unencodable(f"not a uuid: {x!r}")
+        if x not in self.ids:
+            self.ids[x] = len(self.ids) + 1
+        return str(self.ids[x])
+
+    def ou(self, x):
+        return "()" if not x else "(" + self.u(x) + ")"
+
+    def strs(self, l):
+        if not isinstance(l, list):
+            raise Unencodable("not a list")
+        return enc_list([_s(x) for x in l])
+
+    def action(self, a):
+        t = a.type
+        if t == "send_msg":
+            tm = getattr(a, "templating", None)
+            templ = None
+            if tm:
+                templ = enc_list([_s(tm.name), _s(tm.template_uuid), self.strs(tm.variables)])
+            return enc_list(["0", _s(a.text), self.strs(a.quick_replies), self.strs(a.attachments), _opt(templ)])
+        if t == "set_contact_field":
+            return enc_list(["1", _s(a.field.name), _s(a.value)])
+        if t.startswith("set_contact_") and isinstance(getattr(a, "value", None), str):
+            return enc_list(["2", _s(a.property), _s(a.value)])
+        if t in ("add_contact_groups", "remove_contact_groups"):
+            return enc_list(["3", "1" if t == "add_contact_groups" else "0",
+                             enc_list([enc_list([_s(g.name), self.ou(g.uuid)]) for g in a.groups])])
+        if t == "set_run_result":
+            return enc_list(["4", _s(a.name), _s(a.value), _s(a.category)])
+        if t == "add_contact_urn":
+            return enc_list(["5", _s(a.path), _s(a.scheme)])
+        if t == "enter_flow":
+            return enc_list(["6", _s(a.flow.name), self.ou(a.flow.uuid)])
+        if t == "call_webhook":
+            return enc_list(["7", _s(a.url), _s(a.method), _s(a.body),
+                             enc_list([enc_list([_s(k), _s(v)]) for k, v in a.headers.items()]), _s(a.result_name)])
+        if t == "transfer_airtime":
+            return enc_list(["8", enc_list([enc_list([_s(k), _s(str(v))]) for k, v in a.amounts.items()]), _s(a.result_name)])
+        return enc_list(["9", _s(t)])
+
+    def category(self, c):
+        return enc_list([self.u(c.uuid), _s(c.name), self.ou(c.exit.destination_uuid)])
+
+    def case(self, k):
+        args = list(k.arguments)
+        g = None
+        if k.type == "has_group" and args:
+            g, args = args[0], args[1:]
+        return enc_list([_s(k.type), self.ou(g) if g else "()", self.strs(args), self.u(k.category_uuid)])
+
+    def router(self, r):
+        w = r.wait_timeout
+        return enc_list([_s(r.operand), _s(r.result_name or ""), "()" if w is None else f"({int(w)})",
+                         enc_list([self.case(k) for k in r.cases]), enc_list([self.category(c) for c in r.categories]),
+                         self.category(r.default_category),
+                         _opt(self.category(r.no_response_category) if r.no_response_category else None)])
+
+    def node(self, n):
+        from rpft.rapidpro.models import nodes as N
+
+        ui = None
+        if n.ui_pos:
+            ui = enc_list([_s(str(n.ui_pos[0])), _s(str(n.ui_pos[1]))])
+        cls = type(n)
+        if cls is N.BasicNode:
+            kind = enc_list(["0", self.ou(n.default_exit.destination_uuid)])
+        elif cls is N.RandomRouterNode:
+            kind = enc_list(["2", _s(n.router.result_name or ""), enc_list([self.category(c) for c in n.router.categories])])
+        else:
+            k = {N.SwitchRouterNode: 0, N.EnterFlowNode: 1, N.CallWebhookNode: 2, N.TransferAirtimeNode: 3}[cls]
+            kind = enc_list(["1", str(k), self.router(n.router)])
+        return enc_list([self.u(n.uuid), enc_list([self.action(a) for a in n.actions]), _opt(ui), kind])
+
+    def flow(self, fl):
+        return enc_list([self.node(n) for n in fl.nodes])
+
+
+def dec_pv(x, names):
+    if x[0] == 0:
+        return names[x[1]]
+    if x[0] == 1:
+        return dec_str(x[1])
+    if x[0] == 2:
+        return [dec_str(y) for y in x[1]]
+    return [[dec_str(z) for z in y] for y in x[1]]
+
+
+_DEFAULTS = None
+
+
+def _flatten(d):
+    out = {}
+    for k, v in d.items():
+        if isinstance(v, dict):
+            for k2, v2 in v.items():
+                out[f"{k}.{k2}"] = v2
+        else:
+            out[k] = v
+    return out
+
+
+def impl_row(r):
+    """projection of a FlowRowModel: (id, type, edges, goto, other fields flattened)"""
+    d = r.dict()
+    edges = [(e["from_"], (e["condition"]["value"], e["condition"]["variable"], e["condition"]["type"], e["condition"]["name"]))
+             for e in d.pop("edges")]
+    rid, tp, goto = d.pop("row_id"), d.pop("type"), d.pop("mainarg_destination_row_ids")
+    return (rid, tp, edges, goto, _flatten(d))
+
+
+def model_row(x, names):
+    global _DEFAULTS
+    if _DEFAULTS is None:
+        from rpft.parsers.creation.flowrowmodel import FlowRowModel
+
+        d = FlowRowModel(type="x", edges=[]).dict()
+        for k in ("row_id", "type", "edges", "mainarg_destination_row_ids"):
+            d.pop(k)
+        _DEFAULTS = _flatten(d)
+    edges = [(dec_str(e[0]), (dec_pv(e[1][0], names), dec_str(e[1][1]), dec_str(e[1][2]), dec_str(e[1][3]))) for e in x[2]]
+    pay = dict(_DEFAULTS)
+    for fv in x[4]:
+        k = dec_str(fv[0])
+        if k not in pay:
+            pay["<unknown field> " + k] = None
+        pay[k] = dec_pv(fv[1], names)
+    return (dec_str(x[0]), dec_str(x[1]), edges, [dec_str(g) for g in x[3]], pay)
+
+
+def correspond(ctx, kind, cont, cstats, leak_expected=None):
+    """Model vs FlowContainer.to_rows on every flow of the container, numbered and readable."""
+    from rpft.rapidpro.models.containers import RapidProContainer
+
+    r = run_cli_mode(RapidProContainer.from_dict, cont)
+    if r[0] != "ok":
+        cstats["load_error"] = cstats.get("load_error", 0) + 1
+        return
+    for fi, fl in enumerate(r[1].flows):
+        enc = Enc()
+        try:
+            sx = enc.flow(fl)
+        except (Unencodable, AttributeError, KeyError, TypeError) as e:
+            cstats["unencodable"] = cstats.get("unencodable", 0) + 1
+            continue
+        names = {v: k for k, v in enc.ids.items()}
+        outs = ctx.model.ask_many([f"(117 1 0 {sx})", f"(117 1 1 {sx})", f"(117 2 0 {sx})"])
+        for nb in (False, True):
+            ir = run_cli_mode(fl.to_rows, nb)
+            mo = parse_sexp(outs[1 if nb else 0])
+            cstats["compared"] = cstats.get("compared", 0) + 1
+            ctx.v.coverage["evaluations"] += 1
+            where = dict(kind=kind, flow=cont["flows"][fi]["name"], numbered=nb)
+            if mo and mo[0] == 999999:
+                cstats["model_err"] = cstats.get("model_err", 0) + 1
+                if mo[1] != 2:
+                    ctx.disagree("model ran out of fuel / internal error", dict(where, container=cont), mo, str(ir)[:200])
+                elif ir[0] == "ok":
+                    ctx.disagree("model crashes, implementation exports", dict(where, container=cont), "Err", f"{len(ir[1])} rows")
+                continue
+            if mo and mo[0] == 999998:
+                ctx.disagree("model rejected the encoding", dict(where, container=cont), mo, "")
+                continue
+            if ir[0] != "ok":
+                ctx.disagree("implementation crashes, model exports", dict(where, container=cont), f"{len(mo[1])} rows", str(ir[1:]))
+                continue
+            mrows = [model_row(x, names) for x in mo[1]]
+            irows = [impl_row(x) for x in ir[1]]
+            cstats["rows"] = cstats.get("rows", 0) + len(irows)
+            if mrows != irows:
+                k = next((i for i in range(min(len(mrows), len(irows))) if mrows[i] != irows[i]), min(len(mrows), len(irows)))
+                ctx.disagree("to_rows", dict(where, container=cont, first_difference_at_row=k),
+                             repr(mrows[k] if k < len(mrows) else None)[:1500], repr(irows[k] if k < len(irows) else None)[:1500])
+        # export_strip: "Ok None" (a uuid reached a cell) iff the implementation's stripped rows hold a uuid
+        ms = parse_sexp(outs[2])
+        if ms and ms[0] == 0:
+            model_leak = ms[1] == []
+            ir = run_cli_mode(fl.to_row_data_sheet, True, False)
+            if ir[0] == "ok":
+                rds = ir[1]
+                cells = [str(vv) for row in rds.rows for vv in
+                         rds.row_parser.unparse_row(row, rds.target_headers, rds.excluded_headers).values()]
+                impl_leak = any(u in c for c in cells for u in enc.ids)
+                cstats["strip_compared"] = cstats.get("strip_compared", 0) + 1
+                cstats["strip_leaks"] = cstats.get("strip_leaks", 0) + (1 if impl_leak else 0)
+                if model_leak != impl_leak:
+                    ctx.disagree("export_strip: uuid reaches a cell", dict(kind=kind, container=cont), model_leak, impl_leak)
+
+
 # ------------------------------------------------------------------ run
 def run(ctx):
     logging.getLogger("rpft.rapidpro.models.routers").setLevel(logging.ERROR)
@@ -193,6 +408,7 @@ def run(ctx):
     feat = ctx.stats.setdefault("graph_features", {"flows": 0, "with_join": 0, "with_back_edge": 0, "with_self_loop": 0,
                                                    "with_dead_end": 0, "with_multi_action": 0, "nodes": 0, "goto_rows": 0})
     nontrivial = set()
+    cstats = ctx.stats.setdefault("correspondence", {})
 
     conts = []
     fixture = json.load(open(os.path.join(REPO, FIXTURE)))
@@ -227,6 +443,8 @@ def run(ctx):
                          ("with_dead_end", "dead"), ("with_multi_action", "multi_action")):
                 feat[a] += 1 if g[b] else 0
         base = {nb: export_impl(cont, nb) for nb in (False, True)}
+        if ctx.model:
+            correspond(ctx, kind, cont, cstats)
         if kind.startswith("malformed"):
             dist["malformed"] += 1
         if kind == "corner":
